@@ -11,6 +11,7 @@ open StVerif StVerif.Split StVerif.Search StVerif.Spec.Search StVerif.Lemmas.Sea
 open StVerif.Lemmas.Slice (firstOcc_some firstOcc_none)
 open StVerif.Spec.Slice (firstOcc)
 open StVerif.Spec.Split (splitAux split splitAll join)
+open StVerif.Slice (inSet cBytes)
 
 /-! ### the search inside the loops -/
 
@@ -159,10 +160,89 @@ theorem join_splitAux (sep : List Nat) (fuel max : Nat) (s : List Nat) :
         rw [join_cons_of_ne_nil _ _ _ (splitAux_ne_nil _ _ _ _ _), ih]
         exact (window_of_occurs_sensitive ho).symm
 
+/-- two outcomes built from different constructors are different -/
+macro "ne_out" : tactic => `(tactic| (intro e; cases e))
+
+theorem pieces_length_le (cs : CaseMode) (sep : List Nat) (fuel max : Nat) (s : List Nat) :
+    ∀ p ∈ splitAux cs sep fuel max s, p.length ≤ s.length := by
+  induction fuel generalizing max s with
+  | zero => intro p hp; simp [splitAux] at hp; rw [hp]; exact Nat.le_refl _
+  | succ f ih =>
+    intro p hp
+    unfold splitAux at hp
+    split at hp
+    · simp at hp; rw [hp]; exact Nat.le_refl _
+    · split at hp
+      · simp at hp; rw [hp]; exact Nat.le_refl _
+      · next i _ =>
+        rcases List.mem_cons.1 hp with e | e
+        · rw [e, List.length_take]; omega
+        · have := ih (max - 1) (s.drop (i + sep.length)) p e
+          rw [List.length_drop] at this
+          omega
+
+theorem mkAll_not_stuck (mk : List Nat → Outcome (List Nat)) (h : ∀ p, mk p ≠ .stuck ∧ mk p ≠ .oob) (ps : List (List Nat)) :
+    mkAll mk ps ≠ .stuck ∧ mkAll mk ps ≠ .oob := by
+  induction ps with
+  | nil => exact ⟨by ne_out, by ne_out⟩
+  | cons p ps ih =>
+    unfold mkAll
+    cases hq : mk p with
+    | ok q =>
+      simp only [Outcome.bind]
+      cases hr : mkAll mk ps with
+      | ok qs => exact ⟨by ne_out, by ne_out⟩
+      | stuck => exact absurd hr ih.1
+      | oob => exact absurd hr ih.2
+      | throw e => exact ⟨by ne_out, by ne_out⟩
+      | assertFail w => exact ⟨by ne_out, by ne_out⟩
+      | ub w => exact ⟨by ne_out, by ne_out⟩
+    | stuck => exact absurd hq (h p).1
+    | oob => exact absurd hq (h p).2
+    | throw e => exact ⟨by ne_out, by ne_out⟩
+    | assertFail w => exact ⟨by ne_out, by ne_out⟩
+    | ub w => exact ⟨by ne_out, by ne_out⟩
+
+theorem stringSet_not_stuck (m : Mode) (p : List Nat) :
+    Utf.stringSetUtf8 m (some p) ≠ .stuck ∧ Utf.stringSetUtf8 m (some p) ≠ .oob := by
+  unfold Utf.stringSetUtf8
+  simp only []
+  split
+  · exact ⟨by ne_out, by ne_out⟩
+  · cases m with
+    | checkValidity =>
+      simp only []
+      split <;> exact ⟨by ne_out, by ne_out⟩
+    | substituteInvalid => exact ⟨by ne_out, by ne_out⟩
+    | assumeValid => exact ⟨by ne_out, by ne_out⟩
+
+/-- the `const char*` overload always comes back (with the pieces, or with the validating
+    constructor's exception): it neither spins nor runs past the end -/
+theorem splitCstr_not_stuck (cs : CaseMode) (s p : List Nat) (max : Nat) :
+    splitCstr cs s (some p) max ≠ .stuck ∧ splitCstr cs s (some p) max ≠ .oob := by
+  unfold splitCstr
+  simp only []
+  by_cases he : (cBytes p).isEmpty = true
+  · rw [if_pos he]; exact ⟨by ne_out, by ne_out⟩
+  · rw [if_neg he]
+    have hne : cBytes p ≠ [] := fun h => he (by rw [h]; rfl)
+    have hfun : (fun rest => findRaw cs rest (cBytes p)) = (fun r => firstOcc cs r (cBytes p)) :=
+      funext fun r => findRaw_eq_firstOcc cs r (cBytes p) hne
+    rw [hfun, splitLoop_eq cs (cBytes p) _ (s.length + 1) max s [] (by omega)]
+    have := mkAll_not_stuck (fun piece => Utf.stringSetUtf8 (splitterValidation (cBytes p)) (some piece))
+      (fun q => stringSet_not_stuck _ q) (splitAux cs (cBytes p) (s.length + 1) max s)
+    cases hr : mkAll (fun piece => Utf.stringSetUtf8 (splitterValidation (cBytes p)) (some piece))
+        (splitAux cs (cBytes p) (s.length + 1) max s) with
+    | ok qs => exact ⟨by ne_out, by ne_out⟩
+    | stuck => exact absurd hr this.1
+    | oob => exact absurd hr this.2
+    | throw e => exact ⟨by ne_out, by ne_out⟩
+    | assertFail w => exact ⟨by ne_out, by ne_out⟩
+    | ub w => exact ⟨by ne_out, by ne_out⟩
+
 /-! ### tokenize -/
 
 open StVerif.Spec.Split (fields tokens)
-open StVerif.Slice (inSet cBytes)
 
 theorem fields_ne_nil (p : Nat → Bool) (s : List Nat) : fields p s ≠ [] := by
   cases s with
@@ -312,6 +392,89 @@ theorem tokLoop_eq (d : List Nat) (fuel : Nat) (rest : List Nat) (acc : List (Li
         rw [hsplit] at key
         rw [key, List.append_assoc]
         rfl
+
+/-! ### the specified tokens are the maximal runs -/
+
+open StVerif.Spec.Split (Runs)
+
+theorem tokens_nonempty (d s : List Nat) : ∀ t ∈ tokens d s, t ≠ [] := by
+  intro t ht
+  have := (List.mem_filter.1 ht).2
+  intro h
+  rw [h] at this
+  exact absurd this (by decide)
+
+theorem fields_no_delim (p : Nat → Bool) (s : List Nat) : ∀ f ∈ fields p s, ∀ c ∈ f, p c = false := by
+  induction s with
+  | nil => intro f hf c hc; simp [fields] at hf; rw [hf] at hc; cases hc
+  | cons a rest ih =>
+    intro f hf c hc
+    by_cases ha : p a = true
+    · rw [fields_cons_delim p a rest ha] at hf
+      rcases List.mem_cons.1 hf with e | e
+      · rw [e] at hc; cases hc
+      · exact ih f e c hc
+    · rw [fields, if_neg ha] at hf
+      cases hfr : fields p rest with
+      | nil => exact absurd hfr (fields_ne_nil p rest)
+      | cons f0 fs =>
+        rw [hfr] at hf
+        rcases List.mem_cons.1 hf with e | e
+        · rw [e] at hc
+          rcases List.mem_cons.1 hc with e2 | e2
+          · rw [e2]; simpa using ha
+          · exact ih f0 (by rw [hfr]; simp) c e2
+        · exact ih f (by rw [hfr]; simp [e]) c hc
+
+theorem tokens_no_delim (d s : List Nat) : ∀ t ∈ tokens d s, ∀ c ∈ t, d.contains c = false := by
+  intro t ht c hc
+  exact fields_no_delim (d.contains ·) s t (List.mem_filter.1 ht).1 c hc
+
+theorem tokens_runs_aux (d : List Nat) (n : Nat) (s : List Nat) (hn : s.length ≤ n) :
+    Runs (d.contains ·) s (tokens d s) := by
+  induction n generalizing s with
+  | zero =>
+    have : s = [] := List.eq_nil_of_length_eq_zero (by omega)
+    subst this
+    rw [tokens_nil]
+    exact Runs.done [] (by simp)
+  | succ n ih =>
+    have hsplit := List.takeWhile_append_dropWhile (p := inSet d) (l := s)
+    have hg := takeWhile_all (inSet d) s
+    rw [← tokens_dropWhile_delim d s]
+    rcases dropWhile_head (inSet d) s with h1 | ⟨c1, r1, h1, hc1⟩
+    · -- only delimiters
+      rw [h1, tokens_nil]
+      rw [h1, List.append_nil] at hsplit
+      rw [← hsplit]
+      exact Runs.done _ (fun c hc => by have := hg c hc; simpa [inSet] using this)
+    · -- a token follows the gap
+      have hs2 := List.takeWhile_append_dropWhile (p := fun c => !inSet d c) (l := s.dropWhile (inSet d))
+      have ht := takeWhile_all (fun c => !inSet d c) (s.dropWhile (inSet d))
+      have htne : (s.dropWhile (inSet d)).takeWhile (fun c => !inSet d c) ≠ [] := by
+        rw [h1, List.takeWhile_cons, if_pos (by simpa using hc1)]; simp
+      have hr := dropWhile_head (fun c => !inSet d c) (s.dropWhile (inSet d))
+      have hr' : (s.dropWhile (inSet d)).dropWhile (fun c => !inSet d c) = [] ∨
+          ∃ c r, (s.dropWhile (inSet d)).dropWhile (fun c => !inSet d c) = c :: r ∧ d.contains c = true := by
+        rcases hr with h | ⟨c, r, h, hc⟩
+        · exact Or.inl h
+        · exact Or.inr ⟨c, r, h, by simpa [inSet] using hc⟩
+      have ht' : ∀ c ∈ (s.dropWhile (inSet d)).takeWhile (fun c => !inSet d c), d.contains c = false :=
+        fun c hc => by have := ht c hc; simpa [inSet] using this
+      have key := tokens_run_append d _ _ htne ht' hr'
+      rw [hs2] at key
+      rw [key]
+      have hlen1 := congrArg List.length hsplit
+      have hlen2 := congrArg List.length hs2
+      rw [List.length_append] at hlen1 hlen2
+      have htpos := List.length_pos_iff.2 htne
+      have hrec := ih ((s.dropWhile (inSet d)).dropWhile (fun c => !inSet d c)) (by omega)
+      have := Runs.tok (s.takeWhile (inSet d)) _ _ _ (fun c hc => by have := hg c hc; simpa [inSet] using this) htne ht' hr' hrec
+      rw [List.append_assoc, hs2, hsplit] at this
+      exact this
+
+/-- the specified tokens are exactly the maximal non-empty runs of non-delimiters -/
+theorem tokens_runs (d s : List Nat) : Runs (d.contains ·) s (tokens d s) := tokens_runs_aux d s.length s (Nat.le_refl _)
 
 /-! ### replace -/
 
